@@ -31,7 +31,8 @@ Record pnode := PNode { pn_file : Z; pn_target : Z; pn_tname : name; pn_sname : 
 Record centry := CEntry { ce_key : name; ce_target : Z; ce_addr : nat }.
 Definition cache := list centry.
 
-Record pstate := PState { ps_heap : list pnode; ps_caches : list cache }.
+(* every cache is tagged (ghost) with the index of the tree it is used with *)
+Record pstate := PState { ps_heap : list pnode; ps_caches : list (Z * cache) }.
 
 Definition pref_code (r : pref) : Z :=
   match r with PBase c _ => c | PList _ => 15 | PSet _ => 14 | PMap _ _ => 13 | PStruct _ => 12 end.
@@ -50,11 +51,11 @@ Fixpoint upd_list {A} (n : nat) (f : A -> A) (l : list A) : list A :=
   | x :: r, S n' => x :: upd_list n' f r
   end.
 
-Definition get_cache (st : pstate) (cid : nat) : cache := nth cid (ps_caches st) [].
+Definition get_cache (st : pstate) (cid : nat) : cache := snd (nth cid (ps_caches st) (0, [])).
 Definition set_cache (st : pstate) (cid : nat) (f : cache -> cache) : pstate :=
-  PState (ps_heap st) (upd_list cid f (ps_caches st)).
-(* `cache = compilingCache{}` *)
-Definition new_cache (st : pstate) : pstate * nat := (PState (ps_heap st) (ps_caches st ++ [[]]), length (ps_caches st)).
+  PState (ps_heap st) (upd_list cid (fun tc => (fst tc, f (snd tc))) (ps_caches st)).
+(* `cache = compilingCache{}` (for tree ti) *)
+Definition new_cache (st : pstate) (ti : Z) : pstate * nat := (PState (ps_heap st) (ps_caches st ++ [(ti, [])]), length (ps_caches st)).
 Definition alloc_node (st : pstate) (n : pnode) : pstate * nat := (PState (ps_heap st ++ [n]) (ps_caches st), length (ps_heap st)).
 Definition set_node (st : pstate) (a : nat) (f : pnode -> pnode) : pstate := PState (upd_list a f (ps_heap st)) (ps_caches st).
 
@@ -117,7 +118,7 @@ Fixpoint ptype (fuel : nat) (p : program) (o : popts) (st : pstate) (fi : Z) (f 
       let tree := match pkg with
                   | [] => Some (st, fi, f, cid)
                   | _ => match get_ref p f pkg with
-                         | Some (i, f') => let '(st', c') := new_cache st in Some (st', i, f', c')
+                         | Some (i, f') => let '(st', c') := new_cache st i in Some (st', i, f', c')
                          | None => None
                          end
                   end in
@@ -211,25 +212,36 @@ Definition pfunction (p : program) (o : popts) (st : pstate) (fi : Z) (f : ifile
 
 (* ------------------------------------------------------------------ parse *)
 
-Fixpoint file_index (p : program) (f : ifile) (i : Z) : Z :=      (* position of a tree in the include graph (by path) *)
-  match p with
-  | [] => -1
-  | g :: r => if name_eqb (fl_path g) (fl_path f) then i else file_index r f (i + 1)
-  end.
+(* getAllFuncs: the functions of a service followed by the inherited ones, each paired with the tree (index and file) that
+   declares it; same-file bases are followed too (fix 86994e0) *)
+Fixpoint all_funcs_ix (fuel : nat) (p : program) (fi : Z) (f : ifile) (s : isvc) : list (Z * ifile * ifunc) :=
+  match fuel with O => [] | S fuel' =>
+  map (fun fn => (fi, f, fn)) (sv_funcs s) ++
+  match sv_extends s with
+  | [] => []
+  | ext =>
+    let '(pkg, sn) := split_last_dot ext in
+    match pkg with
+    | [] => match find_svc sn (fl_svcs f) with Some s' => all_funcs_ix fuel' p fi f s' | None => [] end
+    | _ => match get_ref p f pkg with
+           | Some (i, f') => match find_svc sn (fl_svcs f') with Some s' => all_funcs_ix fuel' p i f' s' | None => [] end
+           | None => []
+           end
+    end
+  end end.
 
 (* `structsCaches[p.tree]`: one cache per tree, created on first use *)
 Definition tree_cache (st : pstate) (tc : list (Z * nat)) (fi : Z) : pstate * list (Z * nat) * nat :=
   match assocZ fi tc with
   | Some c => (st, tc, c)
-  | None => let '(st', c) := new_cache st in (st', (fi, c) :: tc, c)
+  | None => let '(st', c) := new_cache st fi in (st', (fi, c) :: tc, c)
   end.
 
-Fixpoint pfunctions (p : program) (o : popts) (st : pstate) (tc : list (Z * nat)) (names : list name) (l : list (ifile * ifunc))
+Fixpoint pfunctions (p : program) (o : popts) (st : pstate) (tc : list (Z * nat)) (names : list name) (l : list (Z * ifile * ifunc))
   : option (pstate * list pfunc) :=
   match l with
   | [] => Some (st, [])
-  | (f, fn) :: r =>
-    let fi := file_index p f 0 in
+  | (fi, f, fn) :: r =>
     let '(st1, tc1, cid) := tree_cache st tc fi in
     match pfunction p o st1 fi f cid names fn with
     | None => None
@@ -248,7 +260,7 @@ Definition parse (p : program) (o : popts) : option (pstate * name * list pfunc)
     match selected_services o main with
     | None => None
     | Some (sn, svcs) =>
-      match pfunctions p o (PState [] []) [] [] (flat_map (all_funcs 16 true p main) svcs) with
+      match pfunctions p o (PState [] []) [] [] (flat_map (all_funcs_ix 16 p 0 main) svcs) with
       | Some (st, pfs) => Some (st, sn, pfs)
       | None => None
       end
